@@ -226,10 +226,12 @@ Definition link_cds (st : state) (g : gene) : res state :=
                     (map aid (filter (fun a => negb (akind a =? K_REGION)) (sareas st))) (Ok t1);
   Ok (mkState (sgenes st) t2 (sregs st) lk1).
 
-(* add_cds_feature: a second gene with the same str(location) is refused *)
+(* add_cds_feature: a second gene with the same str(location) is refused; the index is
+   bisect.bisect_right(self._cds_features, cds_feature) - the search with the test "not (new < stored)", after the
+   stored genes with an equal key (it was bisect_left; repair of finding C10-F47 equal_key_genes_order) *)
 Definition add_gene (st : state) (g : gene) : res state :=
   if existsb (fun x => loc_eqb (gloc x) (gloc g)) (sgenes st) then Err E_SecmetInvalid else
-  let index := bisect (fun e => feat_lt (gloc e) (gloc g)) (sgenes st) 0 in
+  let index := bisect (fun e => negb (feat_lt (gloc g) (gloc e))) (sgenes st) 0 in
   link_cds (mkState (insert_at index g (sgenes st)) (sareas st) (sregs st) (slink st)) g.
 
 (* for cds in self.get_cds_features_within_location(area.location): area.add_cds(cds) *)
